@@ -201,6 +201,10 @@ func in(needle interface{}, array interface{}) bool {
 
 func length(a interface{}) int {
 	v := reflect.ValueOf(a)
+	// The checker accepts a pointer to a collection wherever a collection is expected (as fetch and slice do).
+	for v.Kind() == reflect.Ptr {
+		v = v.Elem()
+	}
 	switch v.Kind() {
 	case reflect.Array, reflect.Slice, reflect.Map, reflect.String:
 		return v.Len()
